@@ -152,10 +152,7 @@ def run(ctx):
     for c in cases:
         exprs.append(oracle_expr(c, "D%d" % c.pidx))
     okexprs = [(["D%d" % i], logic.bb("rsys_ok (lower D%d)" % i)) for i in range(len(progs))]
-    codes, failures = logic.coq_codes(ctx.work, "oracle", defs, exprs + okexprs, shard=max(20, (len(exprs) + len(okexprs)) // 16 + 1), imports=IMPORTS)
-    core.log("C06: oracle done at %.1fs" % (time.time() - ctx.t0))
-    if failures:
-        raise core.CheckFailure("coq evaluation failed: %s" % (failures[0],))
+    codes = eg.coq_codes_retry(ctx, "oracle", defs, exprs + okexprs, IMPORTS, ["Props/C06.vo"], shard=max(20, (len(exprs) + len(okexprs)) // 16 + 1))
     okc = codes[len(exprs):]
     if any(x != 1 for x in okc):
         i = [k for k, x in enumerate(okc) if x != 1][0]
@@ -215,9 +212,7 @@ def run(ctx):
         if not items:
             return []
         cexprs = [([("D%d" % c.pidx)], logic.bb(mk(c))) for c in items]
-        ccodes, fl = logic.coq_codes(ctx.work, tag, defs, cexprs, imports=IMPORTS)
-        if fl:
-            raise core.CheckFailure("coq evaluation failed: %s" % (fl[0],))
+        ccodes = eg.coq_codes_retry(ctx, tag, defs, cexprs, IMPORTS, ["Props/C06.vo"])
         return [x == 1 for x in ccodes]
 
     def rec_class_expr(c):
